@@ -27,12 +27,14 @@ from ..runner import mix, result
 PROP = "C19"
 LEVEL = "fault_enumeration"
 EXHAUSTIVE = False
-TIER_OVERRIDES = {"quick": {"budget": 60.0, "workers": 16}, "thorough": {"budget": 900.0, "workers": 16}}
+TIER_OVERRIDES = {"quick": {"budget": 90.0, "workers": 16}, "thorough": {"budget": 900.0, "workers": 16}}
 RULE = ("per configuration (frame, partitioning, npartitions, temp-dir mode, store mode, refresh kw, "
         "retry budget) a fault-free baseline on the reference schedule fixes the fault points "
         "O_1..O_K (every SimFS call, write and close) and the reference dataset D*. Layer 1 "
         "enumerates every (k, kind) with kind in {EIO, ENOENT, AFTER, TORN, ENOSPC, VIS, DEL, "
-        "STALE, CRASH} applicable to O_k; layer 2 repeats one fault r times on the same operation; layer 3 "
+        "STALE, CRASH} applicable to O_k; layer 2 repeats one fault r times on the same operation; layers 1 and 2 "
+        "of all configurations are run in one seeded permutation (any budget gives a uniform "
+        "sample over configurations and fault points, a long enough one the full enumeration); layer 3 "
         "samples pairs/triples; layer 4 samples faults under random multi-worker schedules. A run is "
         "non-trivial when at least one fault fired; distinct = distinct (configuration, fault plan) "
         "event-log digests.")
@@ -53,7 +55,8 @@ COMPONENTS = {
                   "storage faults, latency, listing order"],
 }
 EXPECTED_PROBES = ["retry_fired", "retry_budget_exhausted", "repeat_run_needed",
-                   "crash_with_open_write", "not_yet_consistent_branch"]
+                   "crash_with_open_write", "not_yet_consistent_branch",
+                   "retry_while_six_subparts_feed_one_partition"]
 
 KINDS = ("EIO", "ENOENT", "AFTER", "TORN", "ENOSPC", "VIS", "DEL", "STALE", "CRASH")
 REF_SIM = {"workers": 1, "strategy": "inorder", "switch_p": 0.0, "stall": False}
@@ -73,7 +76,9 @@ def configs(tier, base_seed):
         # external temp dirs: with {uuid} for even seeds, without for odd ones (a repeat
         # then meets the leftovers of the aborted run under the same names)
         ext = "ext_uuid" if base_seed % 2 == 0 else "ext_plain"
-        combos = [(ext, 9, False, True, "short"), ("inside", 3, True, False, "default")]
+        ext2 = "ext_plain" if base_seed % 2 == 0 else "ext_uuid"
+        combos = [(ext, 9, False, True, "short", 2), ("inside", 3, True, False, "default", 2),
+                  (ext2, 1, True, False, "default", 6)]
     else:
         combos = []
         for temp in e1.TEMP_MODES:
@@ -81,13 +86,21 @@ def configs(tier, base_seed):
                 for atomic in (True, False):
                     for refresh in (False, True):
                         for retry in ("default", "short"):
-                            combos.append((temp, npart, atomic, refresh, retry))
-    for i, (temp, npart, atomic, refresh, retry) in enumerate(combos):
+                            combos.append((temp, npart, atomic, refresh, retry, 2))
+        # many input partitions feeding ONE output partition (six sub-parts to merge)
+        j = 0
+        for temp in e1.TEMP_MODES:
+            for retry in ("default", "short"):
+                combos.append((temp, 1, j % 2 == 0, (j // 2) % 2 == 1, retry, 6))
+                j += 1
+    for i, (temp, npart, atomic, refresh, retry, k_in) in enumerate(combos):
         fseed = mix(base_seed, 1000 + i)
-        n = 5 if tier == "quick" else 8
+        n = 8 if (tier != "quick" or k_in > 2) else 5
+        parts = {"mode": "even", "k": 2} if k_in == 2 else \
+            {"mode": "splits", "splits": [[0, 1], [2, 3], [4], [5], [6], [7]]}
         out.append({
             "frame": _frame_for(fseed, n),
-            "parts": {"mode": "even", "k": 2},
+            "parts": parts,
             "npartitions": npart, "p": 6, "tempdir": temp, "compression": "snappy",
             "store": {"atomic_close": atomic, "refresh": refresh, "shuffle_ls": False,
                       "latency": 0.005},
@@ -136,7 +149,11 @@ def baseline(cfg):
 
 
 def _enumerated(tier, base_seed):
+    """Layers 1 and 2 over every configuration, in ONE seeded permutation: whatever prefix the
+    budget allows is a uniform sample of (configuration, fault point, kind) - early and late
+    phases, every configuration - and a budget long enough makes it the full enumeration."""
     cfgs = configs(tier, base_seed)
+    out = []
     # layer 1: exhaustive single faults
     for ci, cfg in enumerate(cfgs):
         ops, _, k_call = baseline(cfg)
@@ -145,8 +162,10 @@ def _enumerated(tier, base_seed):
                 break
             for kind in KINDS:
                 if simfs.applicable(kind, op):
-                    yield {"layer": 1, "cfg": cfg, "plan": {str(k): [kind, None]}, "repeat": [],
-                           "sim": REF_SIM, "seed": mix(base_seed, ci * 100000 + k)}
+                    out.append({"layer": 1, "cfg": cfg, "plan": {str(k): [kind, None]},
+                                "repeat": [], "sim": REF_SIM,
+                                "seed": mix(base_seed, ci * 100000 + k)})
+    n1 = len(out)
     # layer 2: repeated faults on one (op, path)
     for ci, cfg in enumerate(cfgs):
         ops, _, k_call = baseline(cfg)
@@ -162,9 +181,15 @@ def _enumerated(tier, base_seed):
                 for r in sorted({2, budget - 1, budget, budget + 1}):
                     if r < 2:
                         continue
-                    yield {"layer": 2, "cfg": cfg, "plan": {},
-                           "repeat": [[op, rel, kind, r]], "sim": REF_SIM,
-                           "seed": mix(base_seed, 7_000_000 + ci * 100000 + k * 10 + r)}
+                    out.append({"layer": 2, "cfg": cfg, "plan": {},
+                                "repeat": [[op, rel, kind, r]], "sim": REF_SIM,
+                                "seed": mix(base_seed, 7_000_000 + ci * 100000 + k * 10 + r)})
+    ENUM_SIZE.update({"layer1": n1, "layer2": len(out) - n1})
+    random.Random(mix(base_seed, 424242)).shuffle(out)
+    return out
+
+
+ENUM_SIZE = {}
 
 
 def _sampled(tier, base_seed):
@@ -335,6 +360,8 @@ def run_case(case):
     r = _execute(cfg, case["plan"], case["repeat"], case["sim"], case["seed"])
     sim, store = r["sim"], r["store"]
     probes = {f"layer{case['layer']}_cases": 1}
+    if cfg["parts"].get("mode") == "splits" and r["retried"]:
+        probes["retry_while_six_subparts_feed_one_partition"] = 1
     if r["retried"]:
         probes["retry_fired"] = 1
     if r["outcome"] == "raised" and r["retried"]:
